@@ -48,6 +48,10 @@ func init() {
 			r.Rule("R19.4", 60, "every access to the graph's fields holds its mutex (R09.1 restricted to the graph)")
 			checkGraphCaches(w, r, "R19.1", "R19.2", "R19.1c")
 			ruleRollback(w, r, "R19.3")
+			r.Rule("R19.5", 1, "no slice stored in the graph's tables is rewritten in place through a [:0] reslice")
+			ruleNoInPlaceReuse(w, r, "R19.5")
+			r.Rule("R19.6", 1, "the degree recomputation counts every edge")
+			ruleDegreeCountsEveryEdge(w, r, "R19.6")
 			sub := NewReport(r.Prop, r.Tier, w)
 			sub.Rule("R09.1", 0, "")
 			sub.Rule("R09.1u", 0, "")
